@@ -110,8 +110,8 @@ def gen_rich(ctx, i):
 
 
 def inproc_part(ctx):
-    n = ctx.pick(48, 400)
-    limit = ctx.pick(6, 24)
+    n = ctx.pick(48, 160)
+    limit = ctx.pick(6, 12)
     jobs, meta = [], {}
     for i in range(n):
         p = gen_rich(ctx, i)
